@@ -196,21 +196,24 @@ SwapState ==
   /\ res' = [op |-> "SwapState"]
   /\ UNCHANGED <<pend, wait, all, beats, ext, bq, blk, resub, ev>>
 
-\* demoteUnexecutables for one account on running state
+\* demoteUnexecutables for one account on running state: drop what is too old, keep the consecutive run that
+\* starts at the account nonce, postpone (back to waiting, or delete when that fails) everything after the first gap
 DemoteOne(st, a) ==
-  LET P   == Of(st.pend, a)
-      old == {t \in P : N(t) < nonce[a]}
-      P1  == P \ old
-      s1  == [st EXCEPT !.pend = @ \ old, !.all = @ \ old]
-  IN IF P1 = {} \/ nonce[a] \in Nonces(P1) THEN s1
-     ELSE \* gap in front: every tx goes back to waiting (or is deleted when that fails)
+  LET P    == Of(st.pend, a)
+      old  == {t \in P : N(t) < nonce[a]}
+      P1   == P \ old
+      s1   == [st EXCEPT !.pend = @ \ old, !.all = @ \ old]
+      keep == {t \in P1 : \A m \in nonce[a]..N(t) : m \in Nonces(P1)}
+      rest == P1 \ keep
+  IN IF rest = {} THEN s1
+     ELSE
        LET RECURSIVE Move(_, _)
            Move(s, todo) ==
              IF todo = {} THEN s
              ELSE LET t  == TxAt(todo, a, Min(Nonces(todo)))     \* map order irrelevant unless waiting fills up
                       aw == AddWaiting(s, t)
                   IN Move(IF aw.ok THEN aw.st ELSE [aw.st EXCEPT !.all = @ \ {t}], todo \ {t})
-       IN Move([s1 EXCEPT !.pend = @ \ P1], P1)
+       IN Move([s1 EXCEPT !.pend = @ \ rest], rest)
 
 RECURSIVE DemoteSeq(_, _)
 DemoteSeq(st, order) == IF order = <<>> THEN st ELSE DemoteSeq(DemoteOne(st, Head(order)), Tail(order))
